@@ -192,6 +192,12 @@ pub fn near_misses(r: &mut Rng, sp: &SpecP, numbers: bool) -> Vec<String> {
         format!("{fixed}{sep}r2024-01-31_10-11-12 {sfx}"),   // trailing blank
         format!("{fixed}{sep}r2024-01-31_10-11{sfx}"),       // seconds missing
         format!("{fixed}{sep}rcurrent{sfx}"),
+        // extensions that merely END with the suffix letters
+        format!("{fixed}{sep}{good}.sys{}", sp.suffix.clone().unwrap_or("log".into())),
+        format!("{fixed}{sep}{good}.X{}", sp.suffix.clone().unwrap_or("log".into())),
+        format!("{fixed}{sep}rCURRENT.change{}", sp.suffix.clone().unwrap_or("log".into())),
+        format!("{fixed}{sep}{good}{sfx}.tgz"),
+        format!("{fixed}{sep}{good}{sfx}.GZ"),
     ];
     if fixed.len() > 1 {
         let mut cut = fixed.len() - 1;
@@ -219,7 +225,12 @@ pub fn near_misses(r: &mut Rng, sp: &SpecP, numbers: bool) -> Vec<String> {
 pub fn extra_dots(sp: &SpecP, name: &str, numbers: bool) -> bool {
     let Some(infix) = candidate_infix(sp, name) else { return false };
     let infix_ok = if numbers { infix.len() >= 6 && infix.starts_with('r') && infix[1..].bytes().all(|b| b.is_ascii_digit()) } else { ts_ok(&infix, FORMATS[sp.fmt]) };
-    (infix_ok || infix == sp.cur.as_deref().unwrap_or("rCURRENT") || infix == "rCURRENT") && !is_family_name(sp, name, numbers)
+    // … and the code's suffix test passes: the LAST extension is the suffix (any, if none is
+    // configured) or `gz`. Names with another last extension (`.txt`, `.log.bak`, `.syslog`) are
+    // foreign for the code, too, and belong to the random stream.
+    let last_ext = name.rsplit_once('.').map(|x| x.1);
+    let suffix_passes = match &sp.suffix { Some(s) => last_ext == Some(s.as_str()) || last_ext == Some("gz"), None => true };
+    (infix_ok || infix == sp.cur.as_deref().unwrap_or("rCURRENT") || infix == "rCURRENT") && suffix_passes && !is_family_name(sp, name, numbers)
 }
 
 pub fn gen_names_cases(prop: &str, tier: &str, seed: u64) -> Vec<Vec<String>> {
